@@ -361,6 +361,7 @@ func execC16(prog interface{}, c *Case) *Violation {
 		return nil
 	}
 
+	afterOOG := 0
 	for idx := range p.Ops {
 		o := &p.Ops[idx]
 		led.oog, led.overflow = false, false
@@ -535,11 +536,19 @@ func execC16(prog interface{}, c *Case) *Violation {
 			if v := checkParent(idx); v != nil {
 				return v
 			}
-			break
+			if led.overflow {
+				break // the counter's value after an overflow is not specified
+			}
+			// an exhausted meter stays exhausted: the program goes on and every further charge must be refused too
+			afterOOG++
+			continue
 		}
 		if v := checkParent(idx); v != nil {
 			return v
 		}
+	}
+	if afterOOG > 1 {
+		c.Label("operations-after-out-of-gas")
 	}
 	if !oogSeen {
 		// trace: the top trace records every operation in order; the mid trace every read/write/delete
@@ -708,6 +717,7 @@ func execC16Meter(p *c16Prog, c *Case) *Violation {
 	c.Labelf("meter infinite=%v", p.Infinite)
 	nt := false
 	for i, amt := range p.Consume {
+		led.oog = false // an exhausted meter keeps counting: the next charge is judged on the running total again
 		led.charge(amt)
 		gp := catchGas(func() { m.ConsumeGas(amt, "x") })
 		if gp != nil && gp.other != nil {
@@ -741,7 +751,6 @@ func execC16Meter(p *c16Prog, c *Case) *Violation {
 		}
 		if led.oog {
 			nt = true
-			break
 		}
 	}
 	if nt {
